@@ -493,7 +493,7 @@ class Check(PropCheck):
         out = []
         for _ in range(n):
             kind = rng.choice(('plain', 'plain', 'bool', 'bare', 'class', 'style', 'quoted', 'upper', 'dup', 'boolstr', 'invalid',
-                               'oddstyle', 'none-class'))
+                               'oddstyle'))
             if kind == 'plain':
                 out.append([rng.choice(PLAIN_NAMES), rng.choice(PLAIN_VALUES)])
             elif kind == 'bool':
@@ -516,11 +516,8 @@ class Check(PropCheck):
                 out.append([rng.choice(('a$b', '1x', '', 'x y')), 'v'])
             elif kind == 'oddstyle' and rng.random() < 0.5:
                 out.append(['style', rng.choice(ODD_STYLE)])
-            elif kind == 'none-class' and not parsed and rng.random() < 0.2:
-                out.append(['class', None])
-        # a style / class value must be a string for the constructor not to raise (kept rare, detached only)
-        if not parsed and rng.random() < 0.01:
-            out.append(['style', None])
+        # value-less `class` / `style` are never generated: what the constructor does with them (the word 'None' as a
+        # class, AttributeError for style) belongs to C09 / C10 / C03; the model follows the code there, untested here
         return out
 
     def gen_tree(self, rng, parsed, depth, budget):
